@@ -14,13 +14,13 @@ rsync -a --exclude target --exclude .git /repo/ "$S/"
 export CARGO_NET_OFFLINE=true CARGO_TARGET_DIR="$S/target"
 demo_ok_without="n/a"; demo_fails_with="n/a"
 if [ "$DEMO" != "-" ]; then
-  cp "$DEMO" "$S/indextree/tests/zz_demo.rs"
-  if (cd "$S" && cargo test --offline -q -p indextree --all-features --test zz_demo >"$LOGD/demo-without.log" 2>&1); then demo_ok_without=yes; else demo_ok_without=NO; fi
+  cp "$DEMO" "$S/indextree/tests/${DEMO_NAME:-zz_demo}.rs"
+  if (cd "$S" && cargo test --offline -q -p indextree --all-features --test ${DEMO_NAME:-zz_demo} >"$LOGD/demo-without.log" 2>&1); then demo_ok_without=yes; else demo_ok_without=NO; fi
 fi
 if ! (cd "$S" && patch -p1 --no-backup-if-mismatch < "$PATCH" >"$LOGD/patch.log" 2>&1); then echo "{\"name\":\"$NAME\",\"error\":\"patch does not apply\"}"; exit 2; fi
 if [ "$DEMO" != "-" ]; then
-  if (cd "$S" && cargo test --offline -q -p indextree --all-features --test zz_demo >"$LOGD/demo-with.log" 2>&1); then demo_fails_with=NO; else demo_fails_with=yes; fi
-  rm -f "$S/indextree/tests/zz_demo.rs"
+  if (cd "$S" && cargo test --offline -q -p indextree --all-features --test ${DEMO_NAME:-zz_demo} >"$LOGD/demo-with.log" 2>&1); then demo_fails_with=NO; else demo_fails_with=yes; fi
+  rm -f "$S/indextree/tests/${DEMO_NAME:-zz_demo}.rs"
 fi
 if (cd "$S" && cargo test --workspace --offline -q >"$LOGD/suite.log" 2>&1); then suite=green; else suite=RED; fi
 unset CARGO_TARGET_DIR
